@@ -1,8 +1,8 @@
 """C06 - time-history extraction equals stepping through the listing, and terminates.
 
 Space (E2, crossed completely per file): every non-empty subset of the file's tables in every order with one
-item per table; per table every column x row in {first, middle, last} x key form in {name, integer index,
-reversed name (connection tables)} as single-item calls in tuple form and in list form, and all of a table's
+item per table; per table every column x row in {first, middle, last} x key form in {name, integer index, negative
+integer index, reversed name (connection tables)} as single-item calls in tuple form and in list form, and all of a table's
 items together in one call (in order and reversed) and every row of a table in one call; a reduced selection set from every starting index;
 short in {True, False} on AUTOUGH2 files with short output; selections with no valid item.
 
@@ -26,7 +26,7 @@ ENGINE = 'E2'
 EXHAUSTIVE = True
 RULE = ('per shipped listing: all ordered non-empty subsets of its tables (one item per table: middle row by name, '
         'column chosen by the table\'s rank); per table all columns x rows {first, middle, last} x key forms {name, '
-        'integer index, reversed name where the table allows it} x call forms {tuple, one-element list}, plus all items '
+        'integer index, negative integer index (-rows for the first, interior, -1 for the last), reversed name where the table allows it} x call forms {tuple, one-element list}, plus all items '
         'of a table in one call, in order and reversed; every starting index x {one item per table singly, first two '
         'tables, all tables}; short in {True, False} where the file has short output; selections without a valid item. '
         'A case is one history() call on a fresh reader; non-trivial = it names at least one existing cell; distinct = '
@@ -34,7 +34,8 @@ RULE = ('per shipped listing: all ordered non-empty subsets of its tables (one i
 ASSUMPTIONS = ['expected values come from the reader\'s own tables while stepping (first(), next()...), as the statement '
                'defines them; values at AUTOUGH2 short result sets come from an independent whitespace tokenisation of '
                'the printed SHORT tables with ref/fortnum.py numbers',
-               'rows by integer index use 0..rows-1 (the documented zero-based index)',
+               'rows by integer index use -rows..rows-1: the documented zero-based index, and the negative indices the '
+               'listing table itself accepts (table[-1] is the last row), so that history and table access name the same row',
                'a reversed name is used only where the reversed pair is not itself a row of the table',
                'rows whose name is printed for more than one row of a table (AUTOUGH2/7: Atx13, Atx15) are outside the '
                'space: which of them a name or a SHORT-table row refers to is not defined',
@@ -250,8 +251,9 @@ class FileCtx(object):
             return None
         c = tb['cols'].index(col)
         if isinstance(key, int):
-            if 0 <= key < len(tb['rows']):
-                return (t, key, c, False)
+            n = len(tb['rows'])
+            if -n <= key < n:               # as table[key] does: a negative index counts from the last row
+                return (t, key % n, c, False)
             return None
         if key in tb['rowset']:
             if key in tb['dups']:
@@ -280,7 +282,7 @@ def key_forms(tb, r):
     name = tb['rows'][r]
     if name in tb['dups']:
         return []
-    forms = [('name', name), ('index', r)]
+    forms = [('name', name), ('index', r), ('negative-index', r - len(tb['rows']))]
     if tb['rev'] and isinstance(name, tuple) and len(name) > 1 and name[::-1] != name and name[::-1] not in tb['rowset']:
         forms.append(('reversed', name[::-1]))
     return forms
@@ -450,7 +452,7 @@ def eval_call(ctx, case, lst):
     for it, rs, (tg, vg) in zip(sel, resolved, results):
         tname, r, c, rev = rs
         te, ve = ctx.expected(tname, r, c, rev, short)
-        form = 'reversed' if rev else ('index' if isinstance(it[1], int) else 'name')
+        form = 'reversed' if rev else (('negative-index' if it[1] < 0 else 'index') if isinstance(it[1], int) else 'name')
         cls = '%s|%s|item=%s:%s' % (sim, width, tname, form)
         vg = list(np.asarray(vg).tolist()) if np.ndim(vg) == 1 else None
         tg = list(np.asarray(tg).tolist()) if np.ndim(tg) == 1 else None
